@@ -244,6 +244,13 @@ inline void runC07(Ctx &c)
                 eo.ws = rig.env->newWorkspace();
             eo.executor = r.range(0, 1);
             VectorXd grad;
+            if (r.coin(0.5))
+            {
+                // the judged evaluation is not the first one on this optimizer / workspace
+                VectorXd xPrev = genDecisionVector(r, oc, rig), gPrev;
+                (void)rig.opt->evaluate(xPrev, gPrev, oc.prog, eo);
+                c.event("evaluation.on_used_workspace");
+            }
             double cost = rig.opt->evaluate(x, grad, oc.prog, eo);
             int total = 0;
             layoutModel(oc, *rig.env, rig.smH, &total);
@@ -301,6 +308,12 @@ inline void runC08(Ctx &c)
             if (r.coin(0.4))
                 eo.ws = rig.env->newWorkspace();
             VectorXd grad;
+            if (r.coin(0.5))
+            {
+                VectorXd xPrev = genDecisionVector(r, oc, rig), gPrev;
+                (void)rig.opt->evaluate(xPrev, gPrev, oc.prog, eo); // not recorded
+                c.event("evaluation.on_used_workspace");
+            }
             double cost = rig.opt->evaluate(x, grad, prog, eo);
             Problem dec = decodeModel(oc, *rig.env, rig.tmH, rig.smH, x);
             // what the functors were given
